@@ -11,6 +11,7 @@ int FB_SEG(const struct SYM* self, int view, int seg) { struct VS c; c.view_num 
 #include "K_find_basic_vs_nums_in_subset.c"
 #include "K_get_subset_num.c"
 #include "K_balanced_count.c"
+#include "K_ir_reconstruct_loop.c"
 #include "K_balanced_verdict.c"
 
 static void mk_sym(struct SYM* s)
@@ -118,4 +119,11 @@ void h_K_balanced_verdict(void)
   int* a;
   g_sub = nondet_int(); g_w = nondet_int();
   K_balanced_verdict(a, nondet_int());
+}
+
+void h_K_ir_reconstruct_loop(void)
+{
+  struct IRL* r;
+  g_k = nondet_int(); g_upd_calls = 0; g_upd_order_bad = 0; g_upd_last = nondet_int();
+  K_ir_reconstruct_loop(r);
 }
